@@ -280,8 +280,8 @@ theorem C02.applyRes_cmds (cfg : Cfg) (pol : Policy) (step : Nat) (tickEv : Ev) 
     simp only [applyRes]
     split
     · exact ⟨_, rfl⟩
-    · exact ⟨_, rfl⟩
-    · split
+    all_goals
+      split
       · split
         · exact ⟨_, rfl⟩
         · exact ⟨_, rfl⟩
@@ -316,8 +316,8 @@ theorem C02.applyRes_rc (cfg : Cfg) (pol : Policy) (step : Nat) (tickEv : Ev) (d
     simp only [applyRes]
     split
     · rfl
-    · rfl
-    · split
+    all_goals
+      split
       · split <;> rfl
       · rfl
   | addCollected buf ev => simp only [applyRes]; split <;> (try split) <;> rfl
@@ -584,10 +584,18 @@ example :
       (createdAtInit C02.runCfg initState 0 (some C02.startEv) (some 100) ++
         createdAlong C02.runCfg C02.retryPol C02.r0 C02.sched) :=
   C02_ticks_conserved C02.runCfg C02.retryPol initState 0 (some C02.startEv) (some 100) C02.sched (by decide)
-/-- the `lost` slot is real: a retry policy that raises makes the reduction crash, and the runner has
-already taken the tick off the buffer without logging it -/
+/-- the `lost` slot is real for an **arbitrary** runner state (the theorem above starts anywhere): a
+`stepResult` tick for a worker that is not in progress makes the reduction raise (`Worker N not found in
+in_progress`), and the runner has already taken the tick off the buffer without logging it.  From
+`Runner.init` no reduction raises any more (`C04_crash_unreachable`): a retry policy that raises is caught by
+the reducer since the repair of C04/engine_side_failure_no_terminal_event, so there `lostAlong = []`. -/
+example :
+    let r0 : Runner := { st := initState, buf := [.stepResult 1 0 C02.e5 [.failed 9 3]] }
+    (Runner.run C02.runCfg C02.retryPol r0 [.drain]).outcome = some .crashed ∧
+    lostAlong C02.runCfg C02.retryPol r0 [.drain] = [.stepResult 1 0 C02.e5 [.failed 9 3]] := by decide
+/-- … and the raising policy of the former witness now loses nothing: the run fails with the step's error -/
 example :
     let acts : List Act := [.drain, .workerDone 0 0 [.result (some C02.e5)], .drain, .drain, .drain,
       .workerDone 1 0 [.failed 9 3], .drain]
-    (Runner.run C02.runCfg (fun _ _ _ _ => .raise) C02.r0 acts).outcome = some .crashed ∧
-    lostAlong C02.runCfg (fun _ _ _ _ => .raise) C02.r0 acts = [.stepResult 1 0 C02.e5 [.failed 9 3]] := by decide
+    (Runner.run C02.runCfg (fun _ _ _ _ => .raise) C02.r0 acts).outcome = some (.failed 1 9) ∧
+    lostAlong C02.runCfg (fun _ _ _ _ => .raise) C02.r0 acts = [] := by decide
